@@ -27,9 +27,11 @@ Definition oresult : Type :=
 (** slice-level observation: for every log entry where [StepResult.Actions]
     points — [Some (arr, off)]: into array [arr] of the flow definition at
     offset [off]; [None]: nil, or memory that is not part of the definition —
-    and the contents (action codes, every slot) of the definition's arrays
-    AFTER the run *)
-Definition hobs : Type := list (option (nat * nat)) * list (list (Z * Z)).
+    and the arrays of the definition in which some slot holds another action
+    object AFTER the run than before it, with their contents (action codes,
+    every slot) after the run; an array that is not listed was found
+    unchanged, slot by slot *)
+Definition hobs : Type := list (option (nat * nat)) * list (nat * list (Z * Z)).
 
 Inductive case : Type :=
 (* Finish on a stratified family *)
@@ -107,6 +109,25 @@ Definition loc_eqb (a b : option (nat * nat)) : bool :=
   | _, _ => false
   end.
 
+Fixpoint changed_lookup (ch : list (nat * list (Z * Z))) (k : nat) : option (list (Z * Z)) :=
+  match ch with
+  | [] => None
+  | (i, codes) :: t => if Nat.eqb i k then Some codes else changed_lookup t k
+  end.
+
+(** array [k] of the definition after the run, model ([after]) against
+    observation: the observed contents when the harness found it changed,
+    what it held before the run otherwise *)
+Fixpoint arrays_match (ch : list (nat * list (Z * Z))) (before after : heap) (k : nat) : bool :=
+  match before, after with
+  | [], [] => true
+  | b :: bt, a :: at' =>
+      list_eqb pair_eqb (match changed_lookup ch k with Some codes => codes | None => map acode b end)
+               (map acode a)
+      && arrays_match ch bt at' (S k)
+  | _, _ => false
+  end.
+
 (** the slice-level machine against the observation: log and state read
     through the FINAL heap, where each logged slice points, and what the
     definition's arrays hold after the run *)
@@ -116,7 +137,7 @@ Definition hcheck (h : heap) (r : outcome (mstate * heap * list hentry * bool))
   | Ok (st, h', log, d), OOk ro =>
       oresult_eqb ro (machine_obs (st, map (read_entry h') log, d))
       && list_eqb loc_eqb (fst ho) (map (fun e => loc_of (length h) (he_actions e)) log)
-      && list_eqb (list_eqb pair_eqb) (snd ho) (map (map acode) (firstn (length h) h'))
+      && arrays_match (snd ho) h (firstn (length h) h') 0
   | Panic, OPanic => true
   | _, _ => false
   end.
